@@ -17,7 +17,7 @@ func init() {
 	register(&Property{
 		ID:      "C17",
 		NeedGen: true,
-		Runtime: []string{"./codegen/templates"},
+		Runtime: []string{"./codegen/templates", "./plugin/resolvergen"},
 		Run:     runC17,
 		Explanation: "Narrow structural claim for C17: (1) every registered generator configuration (the repository's own regression configs plus /verif probe overlays, " +
 			"regenerated from the current templates by the repository's own generator driver built from the snapshot) generates without error/panic and every emitted package " +
@@ -81,6 +81,7 @@ func runC17(c *Ctx) {
 
 	c17Registry(c)
 	c17AliasUnique(c)
+	c17ResolverFileKey(c)
 
 	// --- keywords ----------------------------------------------------------------------------
 	c.R.Rule("keywords", "the literal table ranged over by templates.sanitizeKeywords contains every Go keyword (go/token)", 25)
@@ -306,4 +307,88 @@ func c17AliasUnique(c *Ctx) {
 	if n < 2 {
 		c.R.Fail("alias-unique found only %d stores to Import.Alias", n)
 	}
+}
+
+// c17ResolverFileKey: the follow-schema resolver generator collects what goes into each output file in a map of *File and
+// renders one file per map entry.  Two entries with the same File.name would be rendered to the same path, the later silently
+// overwriting the earlier (methods or root accessors go missing and the package stops type-checking).  The map therefore has
+// to be keyed by the file name itself: for every insertion of a *File, the key is computed from the very value stored in that
+// File's name field (identity, or a function of it such as strings.ToLower).
+func c17ResolverFileKey(c *Ctx) {
+	c.R.Rule("resolver-file-key", "in plugin/resolvergen every *File inserted into a map is keyed by a value computed from that File's own name field (so that sources mapping to one output file share one entry)", 2)
+	n := 0
+	for _, fn := range c.moduleFuncs(func(p string) bool { return p == pkgResolvergen }) {
+		for _, b := range fn.Blocks {
+			for _, in := range b.Instrs {
+				mu, ok := in.(*ssa.MapUpdate)
+				if !ok || !an.NamedIs(mu.Value.Type(), pkgResolvergen, "File") {
+					continue
+				}
+				if _, isPtr := mu.Value.Type().Underlying().(*types.Pointer); !isPtr {
+					continue
+				}
+				n++
+				key := shortFn(topFn(fn)) + "/files-insert"
+				var names []ssa.Value
+				for _, d := range an.Defs(mu.Value) {
+					al, isAl := d.(*ssa.Alloc)
+					if !isAl {
+						continue
+					}
+					for _, r := range an.Referrers(al) {
+						if fa, isFA := r.(*ssa.FieldAddr); isFA && fieldNameOf(fa) == "name" {
+							for _, r2 := range an.Referrers(fa) {
+								if st, isSt := r2.(*ssa.Store); isSt {
+									names = append(names, st.Val)
+								}
+							}
+						}
+					}
+				}
+				if len(names) == 0 {
+					c.R.Note(key, c.ipos(mu), "the inserted File is not a literal of this function; not judged")
+					continue
+				}
+				ok2 := true
+				for _, nm := range names {
+					if !computedFrom(mu.Key, nm, 0, map[ssa.Value]bool{}) {
+						ok2 = false
+					}
+				}
+				c.R.Check(ok2, key, c.ipos(mu), "keyed by (a function of) the File's own name", "a resolver File is filed under a key that is not computed from its own output name: two schema sources that map to the same resolver file get two entries, and the file rendered last overwrites the other (resolvers or root accessors silently missing, the package no longer type-checks)")
+			}
+		}
+	}
+	if n < 2 {
+		c.R.Fail("resolver-file-key found only %d insertions of a *File into a map", n)
+	}
+}
+
+// computedFrom: value v is src, or is computed from it through calls, conversions, operators and local variables.
+func computedFrom(v, src ssa.Value, depth int, seen map[ssa.Value]bool) bool {
+	if v == nil || depth > 12 || seen[v] {
+		return false
+	}
+	seen[v] = true
+	if v == src || an.SameVar(v, src) {
+		return true
+	}
+	for _, d := range an.Defs(v) {
+		if d == src || an.SameVar(d, src) {
+			return true
+		}
+		in, ok := d.(ssa.Instruction)
+		if !ok {
+			continue
+		}
+		if _, isAlloc := d.(*ssa.Alloc); isAlloc {
+			continue
+		}
+		for _, op := range in.Operands(nil) {
+			if *op != nil && computedFrom(*op, src, depth+1, seen) {
+				return true
+			}
+		}
+	}
+	return false
 }
